@@ -417,16 +417,22 @@ UnitsOf(D, kind, pred(_)) == SelectSeq(D.units, LAMBDA u : u.k = kind /\ pred(u)
 
 EmptyFn == [x \in {} |-> 0]
 
-ScopeOf(ent, arch) ==
-  LET ds == arch.decls
-      enumDecls == SelectSeq(ds, LAMBDA d : d.k = "enum")
+\* enumeration literals and type names declared in a declarative part
+TypeScope(ds) ==
+  LET enumDecls == SelectSeq(ds, LAMBDA d : d.k = "enum")
       lits == UNION {{<<enumDecls[i].lits[j], enumDecls[i].n, j>> : j \in 1..Len(enumDecls[i].lits)} : i \in 1..Len(enumDecls)}
       litNames == {x[1] : x \in lits}
       tyDecls == SelectSeq(ds, LAMBDA d : d.k \in {"enum", "arrtype"})
-      fnDecls == SelectSeq(ds, LAMBDA d : d.k = "function")
   IN [enums |-> [l \in litNames |-> LET x == CHOOSE y \in lits : y[1] = l IN [ty |-> x[2], pos |-> x[3]]],
       types |-> [n \in {tyDecls[i].n : i \in 1..Len(tyDecls)} |->
-                    tyDecls[CHOOSE i \in 1..Len(tyDecls) : tyDecls[i].n = n /\ \A j \in 1..Len(tyDecls) : tyDecls[j].n = n => i <= j]],
+                    tyDecls[CHOOSE i \in 1..Len(tyDecls) : tyDecls[i].n = n /\ \A j \in 1..Len(tyDecls) : tyDecls[j].n = n => i <= j]]]
+
+ScopeOf(ent, arch) ==
+  LET ds == arch.decls
+      ts == TypeScope(ds)
+      fnDecls == SelectSeq(ds, LAMBDA d : d.k = "function")
+  IN [enums |-> ts.enums,
+      types |-> ts.types,
       funcs |-> [n \in {fnDecls[i].n : i \in 1..Len(fnDecls)} |-> fnDecls[CHOOSE i \in 1..Len(fnDecls) : fnDecls[i].n = n]],
       signames |-> {ent.ports[i].n : i \in 1..Len(ent.ports)}
                    \cup {ds[i].n : i \in {j \in 1..Len(ds) : ds[j].k = "signal"}}]
@@ -447,13 +453,16 @@ InitOf(d, sc) == \* declared initial value or the type's default
 \* a process-like unit of the flattened design
 \*  kind "process": body, vars (initial), shape (declared shapes), poison (names reset at activation)
 \*  kind "cassign"/"select"/"cassert"/"portin"/"portout"
-MkProcess(s, pfx, sc, gn, keep) ==
-  LET vds == SelectSeq(s.decls, LAMBDA d : d.k = "variable")
+MkProcess(s, pfx, sc0, gn, keep) ==
+  LET \* types declared in the process declarative part (the type of a user variable) hide the architecture's
+      ts == TypeScope(s.decls)
+      sc == [sc0 EXCEPT !.enums = ts.enums @@ @, !.types = ts.types @@ @]
+      vds == SelectSeq(s.decls, LAMBDA d : d.k = "variable")
       vnames == {vds[i].n : i \in 1..Len(vds)}
       dOf(n) == vds[CHOOSE i \in 1..Len(vds) : vds[i].n = n]
       reads == StmtsReads(s.body, 1)
       names == StmtsNames(s.body, 1)
-      badDecl == \E i \in 1..Len(s.decls) : s.decls[i].k # "variable"
+      badDecl == \E i \in 1..Len(s.decls) : s.decls[i].k \notin {"variable", "enum", "arrtype"}
   IN [kind |-> "process", sc |-> sc, gn |-> gn, node |-> s, label |-> s.label, child |-> "",
       cls |-> Classify(names, vnames, sc),
       sens |-> IF s.sens.all = 1 THEN {gn[n] : n \in (reads \ vnames) \cap sc.signames}
@@ -462,7 +471,7 @@ MkProcess(s, pfx, sc, gn, keep) ==
       shape |-> [n \in vnames |-> DefaultOf(dOf(n).ty, sc)],
       \* keep = names of user variables (never poisoned); "*" in keep switches the checking view off altogether
       poison |-> IF "*" \in keep THEN {} ELSE {n \in vnames : IsNone(dOf(n).init) /\ ~(n \in keep)},
-      err |-> IF badDecl THEN "unmodelled:process declaration other than variable" ELSE ""]
+      err |-> IF badDecl THEN "unmodelled:process declaration other than variable or type" ELSE ""]
 
 MkConc(s, pfx, sc, gn) ==
   LET reads == IF s.k = "cassign" THEN Names(s.e) \cup TargetIndexNames(s.t)
